@@ -397,6 +397,18 @@ def run(ctx):
                repr(_spec("self.get_app_state() != AppState.FINISHED")) in fs,
                "the timeout is checked before the state: an application that has finished but is joined later than `timeout` seconds "
                "after its start is cancelled and its results are thrown away", r_.lineno)
+        # ... and every number is a timeout (0 means "give up at once"): what the test says about `timeout` is that it is given and
+        # that it is exceeded, nothing else
+        if decide:
+            from ..facts import conjuncts as _conj
+            import copy as _copy
+            from ..exprnorm import canon as _canon
+            allowed = {repr(_spec("timeout is not None")), repr(_spec("time.time() - self._start_time > timeout")),
+                       repr(_spec("time.time() - self._start_time >= timeout"))}
+            extra = [ast.unparse(c_) for c_ in _conj(_copy.deepcopy(at.test)) if any(isinstance(x, ast.Name) and x.id == "timeout" for x in ast.walk(c_))
+                     and repr(_canon(c_)) not in allowed]
+            ctx.ob("R2.timeout-zero-honoured", "application/application.py", "Application.join", "the timeout test: given, and exceeded", not extra,
+                   f"the decision to give up also depends on {extra}: a timeout for which that is false (0, a negative number) never expires", at.lineno)
     msa_order_rules(ctx)
     construction_and_output_rules(ctx, idx, apps, files)
     ctx.count("application_classes", len(apps))
